@@ -186,11 +186,13 @@ def row_text(items, inner_start):
 
 
 class Env:
-    def __init__(self):
+    def __init__(self, ns=""):
         from hed import load_schema_version
         from hed.models.definition_dict import DefinitionDict
-        self.schema = load_schema_version("8.3.0")
-        self.dd = DefinitionDict(DEFS, self.schema)
+        from props.c09 import add_prefix
+        self.ns = ns
+        self.schema = load_schema_version(ns + "8.3.0")
+        self.dd = DefinitionDict([add_prefix(d, ns) for d in DEFS], self.schema)
 
 
 def multiset(text):
@@ -215,18 +217,31 @@ def check_history(env, rec, rows):
     for t, items in rows:
         txt, i = row_text(items, i)
         hed.append(txt)
-    df = pd.DataFrame({"onset": [str(t) for t, _ in rows], "HED": hed})
+    from props.c09 import add_prefix, strip_prefix
+    df = pd.DataFrame({"onset": [str(t) for t, _ in rows], "HED": [add_prefix(h, env.ns) if h != "n/a" else h for h in hed]})
     rec.n("evaluations")
     if spans:
         rec.n("distinct_nontrivial")
     try:
         em = EventManager(TabularInput(df), env.schema, extra_defs=env.dd)
+        if env.ns:
+            # compare without the prefix: every tag of the file carries it, so must every listed process
+            class _View:
+                pass
+            view = _View()
+            view.onsets = em.onsets
+            view.base = [strip_prefix(str(x), env.ns) for x in em.base]
+            view.contexts = [strip_prefix(str(x), env.ns) for x in em.contexts]
+            view.hed_strings = [strip_prefix(str(x), env.ns) for x in em.hed_strings]
+            real_em, em = em, view
     except Exception as e:
         rec.violation("C20:raises:" + type(e).__name__, rows=hed, onsets=[t for t, _ in rows], error=repr(e)[:300])
         rec.outcome("raises")
         return
     onsets = [float(x) for x in em.onsets]
     where = {"rows": hed, "onsets": [t for t, _ in rows]}
+    if env.ns:
+        where["namespace"] = env.ns
     if onsets != sorted(onsets):
         rec.violation("C20:entries-not-in-time-order", got=onsets, **where)
         return
@@ -259,7 +274,7 @@ def check_history(env, rec, rows):
     # event_list: every process listed at its start entry with the right end
     try:
         from hed.tools.analysis.hed_tag_manager import HedTagManager
-        objs = HedTagManager(em).get_hed_objs(include_context=True)
+        objs = HedTagManager(real_em if env.ns else em).get_hed_objs(include_context=True)
         for k, t in enumerate(times):
             j = first[t]
             text = str(objs[j]) if objs[j] else ""
@@ -310,6 +325,13 @@ def worker(rec, shard, nshards, nrows, thorough, seed):
         menu_n = range(len(rowkinds)) if n < nrows else small
         for combo in itertools.product(menu_n, repeat=n):
             cases.append(combo)
+    # the histories of up to two rows also under a namespace prefix (every tag written ts:...)
+    env_ns = Env("ts:")
+    short = [c for c in cases if len(c) <= 2]
+    for ci in core.shard_order(len(short), shard, nshards, seed):
+        combo = short[ci]
+        for ons in nondecreasing(len(combo), GRID[:3]):
+            check_history(env_ns, rec, [(t, list(rowkinds[k])) for t, k in zip(ons, combo)])
     for ci in core.shard_order(len(cases), shard, nshards, seed):
         combo = cases[ci]
         for ons in nondecreasing(len(combo), GRID if thorough else GRID[:3]):
